@@ -15,6 +15,13 @@ ASSUMPTIONS = ["reference: harness/ref.py (plain Python ints: //, %, exact /, <<
                "2, 3, 5, 6, 7, 10, -2, -3; bitlength just wide enough for the exponent): a result in [p/2, p) is an ordinary Python integer and "
                "must come back as such; a congruent value where Python's value is itself below p is classified apart from the recorded "
                "reduction of values outside [0, p)",
+               "error checking switched off AND ON AGAIN through the real API (instructions `set ign 1` / `set ign 0` = "
+               "pysnark.runtime.ignore_errors(True) / ignore_errors(False); gen/progs.py ignore_toggle_case: off-on, off-<out-of-domain "
+               "operations>-on, twice, on only, off twice then on): registers computed while checking is off are unspecified; afterwards the run is "
+               "a checks-on run again: in-domain operations give Python's values and an operation outside the documented domain (ordering "
+               "comparison whose difference exceeds the bitlength, zero or inexact division, to_bits / >> / & of a too wide or negative "
+               "value, a false assertion, assert_positive of a negative value) raises; programs whose configuration starts in ignore mode are "
+               "still not judged",
                "totality is checked on operands inside the documented domain: all operand values, results and comparison differences "
                "satisfy |v| < 2^(bitlength-1); divisors non-zero; exact divisibility for '/'; bitwise/shift operands non-negative, "
                "shift counts and exponents below the bitlength"]
@@ -101,7 +108,7 @@ def explore(ctx, extended=False, focus=None):
                "or raised; distinct = (operator, kinds, bitlength, error class)")
     n = ctx.n(5000, 100000) * (4 if extended else 1)
     mix = [(8, lambda rnd, cid, p: progs.op_case(rnd, cid, "valid", INT_OPS, KINDS, p=p)), (4, progs.edge_case), (2, progs.unop_case),
-           (1, progs.ite_case), (2, progs.chain_case), (2, progs.reuse_case), (2, progs.inplace_case), (1, progs.fieldsize_pow_case), (1, lambda rnd, cid, p: progs.method_case(rnd, cid, p, ["if_else", "val", "check_zero", "check_nonzero", "to_bits_rt"]))]
+           (1, progs.ite_case), (2, progs.chain_case), (2, progs.reuse_case), (2, progs.inplace_case), (1, progs.fieldsize_pow_case), (2, progs.ignore_toggle_case), (1, lambda rnd, cid, p: progs.method_case(rnd, cid, p, ["if_else", "val", "check_zero", "check_nonzero", "to_bits_rt"]))]
     cases = corpus_cases("C05") + progs.generate(ctx.rnd, n, "c05x" if extended else "c05_", mix=mix)
     cases = [c for c in cases if c.cfg["ign"] == 0]
     for r in execute_all(cases):
@@ -109,6 +116,18 @@ def explore(ctx, extended=False, focus=None):
         correspond(ex, r, LEVELS)
         if augmented_assignment_mutations(ex, r):
             continue        # the registers no longer hold what the reference (immutable values) has
+        mr = r.case.meta.get("must_raise")
+        if r.case.meta.get("shape") == "ignore-toggle":
+            ex.count(f"ignore-toggle:{r.case.meta['kinds']}:{'ends-' + (r.errcls or 'ok')}")
+        if mr is not None and (r.ok or r.errpos > mr):
+            # error checking was switched back on through ignore_errors(False) before this instruction: it is outside the documented
+            # domain and must raise as in any checks-on run
+            sig = instr_sig(r.case, r.regs, mr); sig["dev"] = "returns-where-checks-on-raises"; sig["mode"] = "ignore-errors-switched-off-again"
+            sig["pattern"] = r.case.meta["kinds"]
+            ex.violations.append(Violation(sig, f"after `set ign 0` (ignore_errors(False)) r{mr} ({r.case.instrs[mr]}) returned "
+                                                f"{r.regs[mr][:60] if mr < len(r.regs) else '?'} where a run with error checking on raises "
+                                                f"({r.case.meta['op']})", {"case": r.case.line(), "instruction": mr}))
+            continue
         R = ref.Ref(r.case.cfg)
         R.run([t.split() for t in r.case.instrs])
         deviated = False
